@@ -1890,7 +1890,7 @@ void eval_instruction (const char *p) {
                 {
                   if (!(sp--)->u.number)
                     error ("*Division by zero.");
-                  sp->u.number /= (sp + 1)->u.number;
+                  sp->u.number = lpc_int_div (sp->u.number, (sp + 1)->u.number);
                   break;
                 }
 
@@ -2211,7 +2211,7 @@ void eval_instruction (const char *p) {
             CHECK_TYPES (sp, T_NUMBER, 2, instruction);
             if ((sp--)->u.number == 0)
               error ("*Modulus by zero.");
-            sp->u.number %= (sp + 1)->u.number;
+            sp->u.number = lpc_int_mod (sp->u.number, (sp + 1)->u.number);
           }
           break;
         case F_MOD_EQ:
